@@ -91,11 +91,16 @@ Theorem C08_chain_form :
     (c < size (i_cols I))%N ->
     @posterior_chain_gen K 0 1 +%R *%R (fun x y => x / y) (ntrans (i_ped I)) (nassign (i_ped I)) (geno (i_ped I))
        (@spec_cols K 0 1 +%R (fun x y => x - y) *%R (fun x y => x / y) I) c ind g
+    = @posterior_spec K 0 1 +%R (fun x y => x - y) *%R (fun x y => x / y) I c ind g /\
+    @posterior_chain_col K 0 1 +%R *%R (fun x y => x / y) (ntrans (i_ped I)) (nassign (i_ped I)) (geno (i_ped I))
+       (@spec_cols K 0 1 +%R (fun x y => x - y) *%R (fun x y => x / y) I) c ind g
     = @posterior_spec K 0 1 +%R (fun x y => x - y) *%R (fun x y => x / y) I c ind g.
 Proof.
 exact (fun K I c ind g hc =>
-         @posterior_chain_gen_eq K (i_ped I) (geno (i_ped I)) _ c ind g
-           (eq_ind_r (fun n => (c < n)%N) hc (size_map _ (i_cols I)))).
+         let hc' := eq_ind_r (fun n => (c < n)%N) hc (size_map _ (i_cols I)) in
+         conj (@posterior_chain_gen_eq K (i_ped I) (geno (i_ped I)) _ c ind g hc')
+              (etrans (@posterior_chain_col_eq K (i_ped I) (geno (i_ped I)) _ c ind g hc')
+                      (@posterior_chain_gen_eq K (i_ped I) (geno (i_ped I)) _ c ind g hc'))).
 Qed.
 Print Assumptions C08_chain_form.
 
